@@ -22,7 +22,7 @@ from ..runner import Entry, differential, corpus_cases
 from . import c08_translate
 
 PRE_Q = ("From Coq Require Import QArith PrimFloat.\nFrom EsVerif.Common Require Import Base.\n"
-         "From EsVerif.C08 Require Import Model Spec Exec.\n")
+         "From EsVerif.C08 Require Import Model Spec Exec SrcLibF SrcF ExecF.\n")
 PRE_CERT_SPEC = ("From Coq Require Import Reals.\nFrom Interval Require Import Tactic.\n"
                  "From EsVerif.C08 Require Import Model Spec Proofs.\nOpen Scope R_scope.\n")
 PRE_CERT = ("From Coq Require Import Reals.\nFrom Interval Require Import Tactic.\n"
@@ -183,8 +183,73 @@ def shift_exact(pts, which):
 
 WARN_COUNT = {"n": 0}
 
+# ---- libm oracle tables: the values sin / cos / arcsin / arccos returned INSIDE one observed call --------
+ORC = ("sin", "cos", "arcsin", "arccos")
+ORC_MAX_PAIRS = 64          # longer calls are not shipped to the float model (property checker only)
+ORC_STATS = {"recorded": 0, "inconsistent": 0, "too-long": 0}
 
-def call_impl(fn, uin, uout, container, pts):
+
+class _Rec:
+    def __init__(self):
+        self.t = {k: {} for k in ORC}
+        self.bad = False
+
+    def wrap(self, name, real):
+        import numpy as np
+
+        def f(x, *a, **k):
+            r = real(x, *a, **k)
+            try:
+                xs = np.asarray(x, dtype="f8").ravel()
+                rs = np.asarray(r, dtype="f8").ravel()
+                if xs.shape != rs.shape:
+                    self.bad = True
+                    return r
+                tab = self.t[name]
+                for u, v in zip(xs.tolist(), rs.tolist()):
+                    key = u.hex()
+                    old = tab.get(key)
+                    if old is not None and old[1].hex() != v.hex() and not (math.isnan(old[1]) and math.isnan(v)):
+                        self.bad = True          # one argument, two values: not a function; no table for this call
+                    tab[key] = (u, v)
+            except Exception:  # noqa
+                self.bad = True
+            return r
+        return f
+
+
+class _NPProxy:
+    """stands for the module object `np` inside esutil.coords during one observed call"""
+
+    def __init__(self, real, rec):
+        self.__dict__["_real"] = real
+        self.__dict__["_rec"] = rec
+
+    def __getattr__(self, k):
+        v = getattr(self._real, k)
+        return self._rec.wrap(k, v) if k in ORC else v
+
+
+def recorded_call(co, fn, *args, **kw):
+    """fn(*args, **kw) with the four libm-backed ufuncs of esutil.coords (bare names imported from numpy and
+    np.<name>) wrapped so that every (argument, value) pair is recorded; observation only"""
+    rec, saved = _Rec(), {}
+    try:
+        for k in ORC + ("np",):
+            if k in co.__dict__:
+                saved[k] = co.__dict__[k]
+        for k in ORC:
+            if k in saved:
+                co.__dict__[k] = rec.wrap(k, saved[k])
+        if "np" in saved:
+            co.__dict__["np"] = _NPProxy(saved["np"], rec)
+        return fn(*args, **kw), rec
+    finally:
+        for k, v in saved.items():
+            co.__dict__[k] = v
+
+
+def call_impl(fn, uin, uout, container, pts, tables=None):
     """one call of the real function on the n pairs `pts` in the given container form ->
     ("ok", [float]*n) | ("err", class, message).  Non-finite values and wrong shapes are errors."""
     import numpy as np
@@ -203,7 +268,15 @@ def call_impl(fn, uin, uout, container, pts):
     try:
         with warnings.catch_warnings(record=True) as wl:
             warnings.simplefilter("always")
-            if fn == "sphdist":
+            if tables is not None:
+                f, kw = (co.sphdist, {"units": [uin, uout]}) if fn == "sphdist" else (co.gcirc, {})
+                out, rec = recorded_call(co, f, *args, **kw)
+                if rec.bad:
+                    ORC_STATS["inconsistent"] += 1
+                else:
+                    ORC_STATS["recorded"] += 1
+                    tables.update({k: [[u, v] for u, v in rec.t[k].values()] for k in ORC})
+            elif fn == "sphdist":
                 out = co.sphdist(*args, units=[uin, uout])
             else:
                 out = co.gcirc(*args)
@@ -218,7 +291,11 @@ def call_impl(fn, uin, uout, container, pts):
 
 def run_case(c):
     fn, uin, uout, cont, pts = c["fn"], c["uin"], c["uout"], c["container"], c["pts"]
-    out = {"main": call_impl(fn, uin, uout, cont, pts)}
+    tabs = {} if len(pts) <= ORC_MAX_PAIRS else None
+    if tabs is None:
+        ORC_STATS["too-long"] += 1
+    out = {"main": call_impl(fn, uin, uout, cont, pts, tables=tabs)}
+    out["orc"] = tabs if tabs else None            # None: no float-model comparison for this call
     sw = [[p[2], p[3], p[0], p[1]] for p in pts]
     if cont == "bcast":                           # the swap of a broadcast call: element-wise length-1 calls
         rs = [call_impl(fn, uin, uout, "len1", [q]) for q in sw]
@@ -267,6 +344,19 @@ def props_args(c, out):
     return "%s %s %s %s %s %s %s" % (UNIT[c["uout"]], cqfrac(tol2_q(c["fn"], c["uout"])), cpts(c["pts"]),
                                      cres(out["main"]), cres(out["swapped"]), cres(out["elem"]),
                                      "None" if sh is None else "(Some %s)" % cres(sh))
+
+
+FN_T = {"sphdist": "FSphdist", "gcirc": "FGcirc"}
+
+
+def ctables(orc):
+    return "(" + ", ".join("[" + "; ".join("(%s, %s)" % (cfloat(u), cfloat(v)) for u, v in orc[k]) + "]" for k in ORC) + ")"
+
+
+def full_args(c, out):
+    orc = out.get("orc")
+    return "%s %s %s %s" % (FN_T[c["fn"]], "None" if not orc else "(Some %s)" % ctables(orc), UNIT[c["uin"]],
+                            props_args(c, out))
 
 
 class Sep(Entry):
@@ -323,17 +413,23 @@ class Sep(Entry):
         return out
 
     def term(self, c, out):
-        return "v_props " + props_args(c, out)
+        return "v_full " + full_args(c, out)
 
     def show(self, c):
-        # [outs_ok; swapped identical; other container form identical; +360 within 2 tol]
+        # ([outs_ok; swapped identical; other container form identical; +360 within 2 tol],
+        #  outputs of the binary64 reading of the source on the case's inputs with the call's own libm values)
         out = run_case(c)
-        return "props_detail " + props_args(c, out)
+        orc = out.get("orc")
+        m = "[]" if not orc else "model_outs %s %s %s %s %s" % (FN_T[c["fn"]], ctables(orc), UNIT[c["uin"]],
+                                                                   UNIT[c["uout"]], cpts(c["pts"]))
+        return "(props_detail %s, %s)" % (props_args(c, out), m)
 
     def nontrivial(self, c, out):
         return any(p[0] != p[2] or p[1] != p[3] for p in c["pts"])
 
     def classify(self, c, out, v):
+        if v == 1:
+            return "%s:float-model-differs" % self.fn
         for k in ("main", "swapped", "elem", "shifted"):
             o = out.get(k)
             if o is not None and o[0] == "err":
@@ -454,18 +550,27 @@ def cert_pool(entries, ctx, budget):
 TRUSTED = [
     "Coq 8.16.1 kernel (coqc, vm_compute; no native_compute); theorems of C08/Properties.v depend only on the standard "
     "library's real-number axioms (ClassicalDedekindReals.sig_forall_dec, sig_not_dec, FunctionalExtensionality."
-    "functional_extensionality_dep, Classical_Prop.classic) and, where closed by Interval (pi_lo < PI < pi_hi and every "
-    "per-case certificate), on the stdlib specification axioms of the primitive floats/ints (FloatAxioms.*, Uint63.*)",
-    "hand-written real-number model C08/Model.v of coords.eq2xyz/_thetaphi2xyz/sphdist/gcirc (one array element); constants "
-    "3.99 and the clip bounds are regenerated from the source on every run (harness/props/c08_translate.py -> C08/Gen.v, "
-    "fail-closed); real PI stands for the binary64 constants of np.deg2rad/np.rad2deg/np.pi",
-    "NOT proved: IEEE rounding of the formula chain and libm/numpy sin, cos, arcsin, arccos, sqrt -- measured instead: each "
+    "functional_extensionality_dep, Classical_Prop.classic) and, where closed by Interval (pi_lo < PI < pi_hi, the numeric "
+    "instances of the conditioning theorem and every per-case certificate), on the stdlib specification axioms of the "
+    "primitive floats/ints (FloatAxioms.*, Uint63.*); the float-level theorem C08_float_zero_identical uses the primitive "
+    "float type and its equality only",
+    "translator harness/props/c08_translate.py (python ast -> Gallina, fail-closed): the element-wise reading of the numpy "
+    "statements of _thetaphi2xyz, eq2xyz, sphdist, gcirc (array conversion = identity, in-place ufuncs, masks, masked "
+    "stores, np.where, (3,n) vector selection, np.cross) is the translator's; it is emitted twice from one ast walk: over R "
+    "(Src.v; proved equal to the hand-written model Model.v + Gen.v constants in SrcProofs.v) and over binary64 (SrcF.v)",
+    "binary64 reading SrcF.v: + - * / sqrt, comparisons are Coq PrimFloat operations (IEEE-754, no FMA: numpy evaluates "
+    "one ufunc per operation); x**2 = x*x, np.deg2rad(x) = x*fl(pi/180), np.rad2deg(x) = x*fl(180/pi), np.cross "
+    "component = fl(fl(ab)-fl(cd)) are assumptions about numpy, confirmed on every case by bit-for-bit agreement with the "
+    "real output; libm sin, cos, arcsin, arccos are NOT modelled: their values are recorded inside the observed call "
+    "(wrappers around esutil.coords' names, observation only) and passed as tables",
+    "NOT proved: that IEEE rounding and libm keep the result within the tolerance for ALL inputs -- measured instead: each "
     "sampled output of the real code is certified by a kernel-checked interval enclosure to be within the statement's "
-    "tolerance of the true angle of its exact binary64 inputs (partial w.r.t. rounding, DESIGN 3.3-R)",
-    "numpy array layer (broadcasting, masks, in-place ufuncs) is not modelled; it is checked per run on exact values: "
-    "scalar = length-1 = length-n = list = broadcast calls bit for bit",
-    "python harness (harness/props/C08.py, c08_translate.py), binary64 -> exact literal printers (core.cR rationals for the certificates, core.cfloat hexadecimal floats decoded by Exec.f2q), "
-    "coqc evaluating Exec.v verdict terms",
+    "tolerance of the true angle of its exact binary64 inputs (partial w.r.t. rounding, DESIGN 3.3-R); real PI stands for "
+    "np.pi and the constants of deg2rad/rad2deg in the real-number reading",
+    "numpy array layer (broadcasting, container conversion) beyond the element-wise reading is checked per run on exact "
+    "values: scalar = length-1 = length-n = list = broadcast calls bit for bit",
+    "python harness (harness/props/C08.py, c08_translate.py), binary64 -> exact literal printers (core.cR rationals for the "
+    "certificates, core.cfloat hexadecimal floats decoded by Exec.f2q), coqc evaluating Exec.v / ExecF.v verdict terms",
 ]
 
 
@@ -483,12 +588,15 @@ def tag_classes(ctx):
 
 def run(ctx, replay=None):
     ctx.rule = ("pairs from the families of the quantifier (uniform; separations 1e-12..1e-3 deg; 180-1e-13..180 deg and exactly "
-                "antipodal inputs; the whole large-angle branch and its threshold; poles; seam; identical inputs; same "
-                "direction with different inputs) in scalar / length-1 / length-3 / array / list / broadcast / long-array "
-                "calls and all four unit combinations; every call is checked on exact rationals inside Coq (finite, range, "
-                "bit-level symmetry, exact zero, container forms identical, +360 within 2 tol) and a family-balanced sample of "
-                "pairs is certified by interval lemmas against the true angle.  non-trivial: the two points differ; "
-                "distinct by canonical JSON; families counted separately (family:* and cert:* keys).")
+                "antipodal inputs; the whole large-angle branch and the branch point of the threshold literal found in the "
+                "source; poles; seam; identical inputs; same direction with different inputs) in scalar / length-1 / "
+                "length-3 / array / list / broadcast / long-array calls and all four unit combinations; every call is (a) "
+                "reproduced bit for bit inside Coq by the binary64 reading of the translated source with the call's own libm "
+                "values (calls of <= 64 pairs), (b) checked on exact rationals inside Coq (finite, range, bit-level symmetry, "
+                "exact zero, container forms identical, +360 within 2 tol), and (c) a family-balanced sample of pairs is "
+                "certified by interval lemmas against the true angle (as many as fit the tier's time budget; corpus pairs "
+                "first).  non-trivial: the two points differ; distinct by canonical JSON; families counted separately "
+                "(family:* and cert:* keys).")
     ctx.trusted = TRUSTED
     # 1. constants from the source of the tree under check
     gen_ok = True
@@ -520,13 +628,13 @@ def run(ctx, replay=None):
                                            "esutil/coords.py; theorems C08_source_is_model, C08_source_exact"},
                       found_input=False)
     # 2. theorems
-    proofs_ok = core.proof_step(ctx, "C08", core.ALLOW_INTERVAL)
+    proofs_ok = core.proof_step(ctx, "C08", core.ALLOW_INTERVAL, extra_targets=["theories/C08/ExecF.vo"])
     if proofs_ok and gen_ok:
         c08_translate.remember_good(core.COQDIR)
     if not proofs_ok:
         # the general theorems (Proofs.v) do not depend on the constants: keep searching for a failing
         # input with certificates stated against the specification only
-        ok, log = core.coq_make(["theories/C08/Proofs.vo", "theories/C08/Exec.vo"])
+        ok, log = core.coq_make(["theories/C08/Proofs.vo", "theories/C08/Exec.vo", "theories/C08/ExecF.vo"])
         if not ok:
             return
     with_model = proofs_ok and gen_ok
@@ -541,6 +649,7 @@ def run(ctx, replay=None):
             return
         it["out"] = o[1][0]
         certify(ctx, [it], with_model, "replay")
+        tag_classes(ctx)
         return
     # 4. exact-rational checks on every call
     differential(ctx, PRE_Q, entries, replay)
@@ -548,6 +657,8 @@ def run(ctx, replay=None):
     if replay is not None:
         return
     ctx.count("observed:RuntimeWarning-raised-inside-esutil", WARN_COUNT["n"])
+    for k, v in ORC_STATS.items():
+        ctx.count("float-model:calls-%s" % k, v)
     # 5. certificates
     import time
     t0 = time.time()
@@ -568,6 +679,7 @@ def run(ctx, replay=None):
         certify(ctx, items[done:done + n], with_model, "cert%d" % k, base=done)
         done += n
         k += 1
+    tag_classes(ctx)
     ctx.count("cert:pool", len(items))
     ctx.count("cert:not-attempted-time-budget", len(items) - done)
     ctx.count("wall_s:certificates", round(time.time() - t0, 1))
